@@ -306,17 +306,22 @@ func Harness_C01_table_refs() {
 }
 
 // Harness_C01_table_logs: box A, reflogs: deletion / full / hash-less entries after 0..1 refs.
-// bounds: 0..1 refs + 1..2 logs (thorough 1..3); names 1 byte (all values), log kinds {deletion, full entry, entry with absent hashes}; hashes: 1 free byte + fixed tail; name/email 1 byte, message 0..2 ASCII bytes; the optional ref is a plain value ref, time/update index 0..127, tz any 16 bit; Config: BlockSize 160 (thorough: also 4096 default) x Unaligned x ExactLogMessage x HashID sha1 (thorough: also sha256)
+// bounds: 0..1 refs + 1..2 logs (thorough: 3 logs in the quick configuration space, and 1..2 logs also with the default block size and sha256); names 1 byte (all values), log kinds {deletion, full entry, entry with absent hashes}; hashes: 1 free byte + fixed tail; name/email 1 byte, message 0..2 ASCII bytes; the optional ref is a plain value ref, time/update index 0..127, tz any 16 bit; Config: BlockSize 160 (thorough: also 4096 default) x Unaligned x ExactLogMessage x HashID sha1 (thorough: also sha256)
 // assumes: message bytes < 0x80; update index and time < 128 (varint width decided at codec level)
 // covers: done
 func Harness_C01_table_logs() {
+	n := VerifIntRange(1, 2+VerifTier())
+	wide := 1 + VerifTier() // thorough: also the default block size and sha256 ...
+	if n == 3 {
+		wide = 1 // ... but three entries only in the narrow configuration space
+	}
 	cfg := Config{
-		BlockSize:       []uint32{160, 0}[VerifChoose(1+VerifTier())],
+		BlockSize:       []uint32{160, 0}[VerifChoose(wide)],
 		Unaligned:       VerifChoose(2) == 1,
 		ExactLogMessage: VerifChoose(2) == 1,
 	}
 	g := &genCfg{hashSize: 20, hashFree: 1, idxSmall: true, asciiMsg: true, nameLen: 1}
-	if VerifChoose(1+VerifTier()) == 1 {
+	if VerifChoose(wide) == 1 {
 		cfg.HashID = SHA256ID
 		g.hashSize = 32
 	}
@@ -324,7 +329,6 @@ func Harness_C01_table_logs() {
 	if VerifChoose(2) == 1 {
 		refs = append(refs, &RefRecord{RefName: symString(1), UpdateIndex: uint64(VerifU8() & 0x7f), Value: genHash(g, 0x11)})
 	}
-	n := VerifIntRange(1, 2+VerifTier())
 	var logs []*LogRecord
 	for i := 0; i < n; i++ {
 		l := genLog(g, symString(1), VerifChoose(3))
